@@ -286,6 +286,43 @@ func runC20(c *h.Ctx) {
 	})
 
 	// ---- varint decoder on arbitrary bytes -------------------------------------------
+	// varints wider than the field kind (a value written under a wider kind and read under a narrower one): the
+	// decoders must narrow exactly like the reference implementation
+	c.Run("narrowing", c.N(400, 40000), func(cs *h.Case) {
+		var v uint64
+		switch cs.I % 8 {
+		case 0:
+			v = uint64(1)<<32 + uint64(cs.R.Intn(8))
+		case 1:
+			v = uint64(1)<<uint(32+cs.R.Intn(32)) | cs.R.U64()>>uint(32+cs.R.Intn(31))
+		case 2:
+			v = ^uint64(0) - uint64(cs.R.Intn(4))
+		case 3:
+			v = uint64([]int{2, 3, 255, 256, 257, 128, 0x7fffffff, 0x80000000, 0xffffffff}[cs.R.Intn(9)])
+		default:
+			v = cs.R.U64()
+		}
+		b := rwire.AppendVarint(nil, v)
+		dec := dwire.BinaryDecoder{}
+		if g, n := dec.DecodeInt32(b); g != int32(v) || n != len(b) {
+			cs.Viol("wire:narrow:DecodeInt32", "varint", v, "got", g, "want", int32(v))
+		}
+		if g, n := dec.DecodeUint32(b); g != uint32(v) || n != len(b) {
+			cs.Viol("wire:narrow:DecodeUint32", "varint", v, "got", g, "want", uint32(v))
+		}
+		if g, n := dec.DecodeSint32(b); g != int32(rwire.DecodeZigZag(v&0xffffffff)) || n != len(b) {
+			cs.Viol("wire:narrow:DecodeSint32", "varint", v, "got", g, "want", int32(rwire.DecodeZigZag(v&0xffffffff)))
+		}
+		if g, n := dec.DecodeSint64(b); g != rwire.DecodeZigZag(v) || n != len(b) {
+			cs.Viol("wire:narrow:DecodeSint64", "varint", v, "got", g, "want", rwire.DecodeZigZag(v))
+		}
+		if g, n := dec.DecodeBool(b); g != rwire.DecodeBool(v) || n != len(b) {
+			cs.Viol("wire:narrow:DecodeBool", "varint", v, "got", g, "want", rwire.DecodeBool(v))
+		}
+		cs.Cover("narrowing_inputs")
+		cs.Distinct(fmt.Sprintf("nw-%d-%d", cs.I%8, len(b)))
+	})
+
 	c.Run("varint-decoder", 258+c.N(300, 20000), func(cs *h.Case) {
 		cmp := func(b []byte) {
 			v1, n1 := dwire.ConsumeVarint(b)
